@@ -124,7 +124,7 @@ def handle (op : String) (j : Json) : Option Json :=
       let rid ← getNat? j "rid"
       let l : MeasLine := { inv := inv, it := it, value := value, unit := unit.toList, crit := crit.toList,
                             cols := cols.map String.toList, rid := rid }
-      let text := renderMeas l
+      let text := writeMeas l
       let lines := splitLines (text ++ ['\n'])
       pure (Json.mkObj [("text", Json.str (str text)),
                         ("lines", Json.arr (lines.map (fun x => Json.str (str x))).toArray),
